@@ -62,8 +62,13 @@ pub fn gen_world(seed: u64, idx: u64, s: &dyn SuiteOps) -> World {
     let mut fin_pool: Vec<u32> = vec![];
     // real logins
     for _ in 0..2 {
-        let (l, ops) = b.login_ops(&mut g, setup, Some(r.record), &pw, &pw, &cred_a, ctx.clone(), ctx.clone(), ids.clone(), ids.clone(), ksf.clone(), false);
+        let (l, mut ops) = b.login_ops(&mut g, setup, Some(r.record), &pw, &pw, &cred_a, ctx.clone(), ctx.clone(), ids.clone(), ids.clone(), ksf.clone(), false);
         fin_pool.push(l.fin);
+        // the registered user's request is replayed to the server: the second answer must be as
+        // fresh as two answers to an unregistered user are
+        let (st2, m2) = (b.id(), b.id());
+        let t2 = b.tape("loginrespond");
+        ops.push(Op::LoginRespond { st: st2, msg: m2, tape: t2, setup: Ref::mem(setup), record: Some(Ref::mem(r.record)), req: Ref::mem(l.req), cred: cred_a.clone().into(), ctx: ctx.clone().map(Into::into), ids: ids.clone() });
         threads.push(ops);
     }
     // fake attempts: unregistered id, registered id with no record, repeated
@@ -95,6 +100,31 @@ pub fn gen_world(seed: u64, idx: u64, s: &dyn SuiteOps) -> World {
         // client reaction to the second fake response as well
         let out = b.id();
         ops.push(Op::LoginFinish { out, st: Ref::mem(l.cst), pw: pw.clone().into(), resp: Ref::mem(m3), ctx: ctx.clone().map(Into::into), ids: ids.clone(), ksf: ksf.clone() });
+        threads.push(ops);
+    }
+    // crafted requests: an honest request whose key share is replaced by a public key the
+    // adversary may hold (the client key of the password file — e.g. from an old leak —, the
+    // server's key, another session's share). Each is sent for the registered identifier with
+    // and without the password file and for the unregistered identifier: whatever the server
+    // does with such a request, it must do the same in all three cases
+    {
+        let (pst, preq) = (b.id(), b.id());
+        let tape = b.tape("loginstart");
+        let mut ops = vec![Op::LoginStart { st: pst, msg: preq, tape, pw: pw.clone().into() }];
+        let lens = s.lens();
+        let head = crate::world::Part { id: preq, from: 0, to: lens.noe + 32 };
+        let donors = [
+            crate::world::Part { id: r.record, from: 0, to: lens.npk },
+            crate::world::Part { id: r.resp, from: lens.noe, to: lens.noe + lens.npk },
+        ];
+        for d in donors {
+            for (rec, cred) in [(Some(r.record), &cred_a), (None, &cred_a), (None, &cred_x)] {
+                let (st, msg) = (b.id(), b.id());
+                let tape = b.tape("loginrespond");
+                let req = Ref::Splice { kind: Kind::CredReq, parts: vec![head.clone(), d.clone()] };
+                ops.push(Op::LoginRespond { st, msg, tape, setup: Ref::mem(setup), record: rec.map(Ref::mem), req, cred: cred.clone().into(), ctx: ctx.clone().map(Into::into), ids: ids.clone() });
+            }
+        }
         threads.push(ops);
     }
     b.interleave(&mut g, threads);
@@ -194,6 +224,30 @@ pub fn judge(w: &World, r: &RunResult) -> Vec<Violation> {
             }
         }
     }
+    // the same request is answered or refused alike with and without a password file
+    {
+        let mut by_req: BTreeMap<String, Vec<(usize, bool, Result<(), String>)>> = BTreeMap::new();
+        for (i, (op, e)) in w.ops.iter().zip(r.events.iter()).enumerate() {
+            if let (Op::LoginRespond { setup, record, req, ctx, .. }, false) = (op, e.skipped) {
+                if ctx.as_ref().map_or(false, |c| c.0.len() > 65535) {
+                    continue;
+                }
+                let outcome = match &e.res {
+                    Ok(_) => Ok(()),
+                    Err(f) if f.is_panic() => continue,
+                    Err(f) => Err(f.short()),
+                };
+                by_req.entry(format!("{setup:?}|{req:?}")).or_default().push((i, record.is_none(), outcome));
+            }
+        }
+        for group in by_req.values() {
+            let real: Vec<_> = group.iter().filter(|x| !x.1).collect();
+            let fake: Vec<_> = group.iter().filter(|x| x.1).collect();
+            if let (Some(re), Some(fa)) = (real.first(), fake.iter().find(|f| real.iter().any(|r| r.2.is_ok() != f.2.is_ok()))) {
+                v.push(Violation { clause: "fake_structure", op: fa.0, detail: format!("one request, two answers: with the password file (op {}) {:?}, without one (op {}) {:?} — the difference tells whether the user is registered", re.0, real.iter().map(|r| r.2.clone()).collect::<Vec<_>>(), fa.0, fa.2) });
+            }
+        }
+    }
     // (a) structure
     for (i, fake, _, b) in &resps {
         if *fake && b.len() != total {
@@ -267,7 +321,7 @@ pub fn judge(w: &World, r: &RunResult) -> Vec<Violation> {
 
 pub fn run(ctx: &Ctx) -> Report {
     let mut rep = Report::new(
-        "per world: one registration, 2 real logins and 4 fake attempts (unregistered id twice, registered id without record, again) interleaved; each fake request is also answered with the real record and once more without. Checked: equal length + decodes; evaluation element equal for equal (setup, request, credential id) with or without record; masking nonce / masked response / server nonce / server ephemeral key / MAC never repeat across the run; fake response must not unmask to server_pk‖0 under any key visible outside that call (zero, 0xFF, real masking keys, any Nh-byte draw of another call); client gets InvalidLoginError; zero / 0xFF / random / real finalizations and MACs/hashes over constants (computable without any secret) never complete a fake server state. What is decidable is non-repetition and tape-dependence, not unpredictability as such",
+        "per world: one registration, 2 real logins and 4 fake attempts (unregistered id twice, registered id without record, again) interleaved; each fake request is also answered with the real record and once more without; each real request is replayed to the server once; 2 crafted requests (key share := the password file's client key / the server's key) are sent for the registered identifier with and without the file and for the unregistered one and must be answered or refused alike. Checked: equal length + decodes; evaluation element equal for equal (setup, request, credential id) with or without record; masking nonce / masked response / server nonce / server ephemeral key / MAC never repeat across the run; fake response must not unmask to server_pk‖0 under any key visible outside that call (zero, 0xFF, real masking keys, any Nh-byte draw of another call); client gets InvalidLoginError; zero / 0xFF / random / real finalizations and MACs/hashes over constants (computable without any secret) never complete a fake server state. What is decidable is non-repetition and tape-dependence, not unpredictability as such",
     );
     let mut suites: Vec<&'static dyn SuiteOps> = SIM_SUITES.to_vec();
     suites.extend(ID_SUITES.iter().step_by(ctx.pick(4, 1)));
